@@ -21,7 +21,7 @@ CLAIMS = {
              "parameters; the complement subtracts the other children's terms at n from the original parent's; the quotient computes "
              "A (parent at n + shift minus compositions with the counted factor below n), C (other factors at the shift) and A / C, "
              "with the rule's own terms at the counted position; a count is the entry of level n for the parameters in the class's "
-             "own order. Does NOT decide that together they give the true counts (that also needs the strategies' contracts).",
+             "own order. Also: child_idx of an equivalence rule is the position of the kept child in the original rule; overridden static parameter maps are bound by name. Does NOT decide that together they give the true counts (that also needs the strategies' contracts).",
         note="Trusted: ast, control model, pattern matcher. Every clause is a necessary condition; the conjunction is not claimed to be sufficient.",
     ),
     "C02": dict(
@@ -35,7 +35,7 @@ CLAIMS = {
              "folding, makes up an empty rule only for a class without a rule that is empty, and folds equivalence chains without "
              "hiding a class of a real rule; stored strategies are re-applied to the class of their own key; the extractor is told the "
              "raw root; rules inside one equivalence class are dropped and cycles connected before collapsing; the explanation path "
-             "follows recorded edges. Does NOT decide productivity (C03/C05/C11) nor that a re-applied strategy returns the same "
+             "follows recorded edges. Also: an equivalence walked backwards reverses the original rule at the position of the kept child. Does NOT decide productivity (C03/C05/C11) nor that a re-applied strategy returns the same "
              "children (C14).",
         note="Trusted: ast, control model. Assumes strategies are deterministic.",
     ),
@@ -57,14 +57,14 @@ CLAIMS = {
     "C04": dict(
         technique="ast provenance/alignment data-flow + who-may-record call-site rule",
         design='DESIGN.md sections 3 (engines P, T) and 4 (C04)',
-        text='Static analysis of necessary structural clauses, not the behaviour: every (start, ends, rule) triple that reaches a rule database is computed from that same rule object (guarded start label, order-preserving unfiltered child labels); children are dropped only under possibly_empty AND is_empty and every other label is kept exactly once; strategy applications sit inside StrategyDoesNotApply handlers that neither yield nor record; the (class, label) arguments handed on belong together, including the class remembered per label in the expansion loop; emptiness has only sanctioned writers; class storage is append-only and compressed exactly once. Holds for all inputs because it is a property of every path of the enumerated functions; says nothing about whether strategies honour their contracts.',
+        text='Static analysis of necessary structural clauses, not the behaviour: every (start, ends, rule) triple that reaches a rule database is computed from that same rule object (guarded start label, order-preserving unfiltered child labels); children are dropped only under possibly_empty AND is_empty and every other label is kept exactly once; strategy applications sit inside StrategyDoesNotApply handlers that neither yield nor record; the (class, label) arguments handed on belong together, including the class remembered per label in the expansion loop; emptiness has only sanctioned writers; class storage is append-only and compressed exactly once. what a factory yields is used as it is (a ready rule itself, a strategy applied to the class being expanded); every strategy kind takes missing children from decomposition_function; the possibly_empty question is asked of the rule passed in. Holds for all inputs because it is a property of every path of the enumerated functions; says nothing about whether strategies honour their contracts.',
         note="Trusted: CPython ast, the hand-written resolver/guard model (DESIGN.md 2.1, appendix B). Assumes "
              "strategies honour possibly_empty / StrategyDoesNotApply contracts.",
     ),
     "C05": dict(
         technique='label-kind (raw vs representative) abstract interpretation, evaluation-order / staleness rule, cache-invalidation dominance rule, purity and bisection conformance rules',
         design='DESIGN.md sections 3 (engine K) and 4 (C05)',
-        text='Decides: every label handed to pruning / proof-tree code with a representative-keyed dictionary is a representative; every producer of a key up to equivalence sorts; rules inside one equivalence class are dropped by an equivalence test; one-way cycles are connected unconditionally before rules are collapsed and the cycle search has no early exit; every mutation of the stores resets the cached pruned dictionary and nobody else mutates them; a representative is never used across a call that may merge classes (evaluation order included); the one-way table is normalised and loss-free; the finders do not modify the dictionary they are handed; depth-first generators thread the seen-set; the smallest-tree search is a correct bisection. Does NOT decide that prune computes the fixed point.',
+        text='Decides: every label handed to pruning / proof-tree code with a representative-keyed dictionary is a representative; every producer of a key up to equivalence sorts; rules inside one equivalence class are dropped by an equivalence test; one-way cycles are connected unconditionally before rules are collapsed and the cycle search has no early exit; every mutation of the stores resets the cached pruned dictionary and nobody else mutates them; a representative is never used across a call that may merge classes (evaluation order included); the one-way table is normalised and loss-free; the finders do not modify the dictionary they are handed; depth-first generators thread the seen-set; the smallest-tree search is a correct bisection. Also: every single-child rule reaches the equivalence database as an edge whatever its kind; the one-way table is merged, not assigned, under every construction form. Does NOT decide that prune computes the fixed point.',
         note="Trusted: ast, kind tables read from the code (section 3). Partial by design.",
     ),
     "C06": dict(
@@ -73,26 +73,26 @@ CLAIMS = {
         text="Decides the soundness side only: equivalence and verification are decided through find, the verified mark lives on "
              "representatives and is carried over every merge, merges link roots and keep weights in step, two-way edges are recorded "
              "both ways, one-way edges enter a normalised loss-free table and are merged only along a closed cycle, the cycle search is "
-             "never skipped, explanation paths follow recorded edges from the first label to the second. Does NOT decide completeness "
+             "never skipped, explanation paths follow recorded edges from the first label to the second. Also: an equivalence walked backwards reverses the original rule at the position of the kept child; every single-child rule is recorded as an edge. Does NOT decide completeness "
              "of the cycle search (that every strongly connected component is found).",
         note="Trusted: ast, kind inference (self[x] is a representative inside EquivalenceDB). Partial by design: 'exactly' is not decided.",
     ),
     "C07": dict(
         technique="structural inverse-pair check of derived-rule maps + alignment data-flow",
         design='DESIGN.md sections 3 (engines M, V, S0) and 4 (C07)',
-        text='Decides the round-trip plumbing of derived rule forms (same slot in forward/backward, reversed fold order for paths), the wiring of object generation (sub-providers aligned with children, one complete level appended per iteration, the first missing level computed), that generation and counting of a product run over the same index set utils.compositions(n, k, min_sizes, max_sizes) whose bounds and completeness are re-derived (S0), and the parameter maps that key the objects. Necessary for map/unmap round trips and for generated sets agreeing with counts; does not decide set equality of generated objects.',
+        text='Decides the round-trip plumbing of derived rule forms (same slot in forward/backward, reversed fold order for paths), the wiring of object generation (sub-providers aligned with children, one complete level appended per iteration, the first missing level computed), that generation and counting of a product run over the same index set utils.compositions(n, k, min_sizes, max_sizes) whose bounds and completeness are re-derived (S0), and the parameter maps that key the objects. Necessary for map/unmap round trips and for generated sets agreeing with counts; Also: no object map that the derived rule forms override is bypassed by a copy of the base delegate or a call pinned to the base class. does not decide set equality of generated objects.',
         note="Trusted: ast; assumes the original strategy's maps are mutually inverse.",
     ),
     "C08": dict(
         technique="inverse-CDF walk shape analysis (draw range, accumulator, comparison normal form)",
         design='DESIGN.md sections 3 (engines U, V, M) and 4 (C08)',
-        text="Decides that each threshold walk is an exact inverse-CDF walk over the weights it accumulates (draw range/comparison pair, accumulate-before-compare, weight and sampler use the same translated parameters), that N is the rule's own count, that the preimage pick is uniform, that the refusal guard dominates sampling and is evaluated per query, that the parameter split of a product offers each child the intersection of its own interval with what the rest can absorb, that queries never write constructor tables through an alias, and that derived rule forms map through the same slot both ways. Does not decide that the weights are true counts.",
+        text="Decides that each threshold walk is an exact inverse-CDF walk over the weights it accumulates (draw range/comparison pair, accumulate-before-compare, weight and sampler use the same translated parameters), that N is the rule's own count, that the preimage pick is uniform, that the refusal guard dominates sampling and is evaluated per query, that the parameter split of a product offers each child the intersection of its own interval with what the rest can absorb, that queries never write constructor tables through an alias, and that derived rule forms map through the same slot both ways. Also: the same dispatch rule for the object maps; an absent maximum bounds nothing in the reliance profile. Does not decide that the weights are true counts.",
         note="Trusted: ast; arithmetic normalisation of comparison idioms (appendix B).",
     ),
     "C09": dict(
         technique="variable-namespace kind inference (parent vs child statistic names / positions)",
         design='DESIGN.md sections 3 (engines V, S0, M6, U7) and 4 (C09)',
-        text="Decides namespace and position-space discipline of the four constructors and the derived constructors: child terms are re-keyed through that child's own fresh multi-valued table in the right direction, per-child maps are paired with per-child terms, zero sets are parent names, queries do not mutate the tables; products count over the complete, bounded enumeration utils.compositions (S0) with all provider combinations, and parameter splits are interval intersections. Does not decide the arithmetic of the recurrences.",
+        text="Decides namespace and position-space discipline of the four constructors and the derived constructors: child terms are re-keyed through that child's own fresh multi-valued table in the right direction, per-child maps are paired with per-child terms, zero sets are parent names, queries do not mutate the tables; products count over the complete, bounded enumeration utils.compositions (S0) with all provider combinations, and parameter splits are interval intersections. Also: one complete level of terms is computed before it is appended; a static parameter map that a constructor overrides is bound by the name of that constructor. Does not decide the arithmetic of the recurrences.",
         note="Trusted: ast, kind tables (section 3, engine V). Partial by design.",
     ),
     "C10": dict(
@@ -108,7 +108,7 @@ CLAIMS = {
     "C11": dict(
         technique='enumeration/exhaustiveness, sibling agreement, memo-purity and alias-discipline rules over forest.py and every forest_key implementation',
         design='DESIGN.md sections 3 (rules E, W4) and 4 (C11)',
-        text='Decides: every bucket a rule can be filed under is minimised, REVERSE first; all forest_key call sites use the same (get_label, is_empty) pair and every reverse form is considered under exactly the is_reversible() guard, at insertion and at recovery; a recomputed rule is returned only when its key equals the requested one; factory-made rules are probed under a StrategyDoesNotApply handler; every key of the pumping sub-universe is filed (no projection-based skip); a key is never memoised on the rule across class databases; aliases of owned containers are updated in place; the whole pack is replayed. Does not decide minimality/productivity of the extracted set.',
+        text='Decides: every bucket a rule can be filed under is minimised, REVERSE first; all forest_key call sites use the same (get_label, is_empty) pair and every reverse form is considered under exactly the is_reversible() guard, at insertion and at recovery; a recomputed rule is returned only when its key equals the requested one; factory-made rules are probed under a StrategyDoesNotApply handler; every key of the pumping sub-universe is filed (no projection-based skip); a key is never memoised on the rule across class databases; aliases of owned containers are updated in place; the whole pack is replayed. Also: the three forest_key forms build (parent label, child labels in order, shifts) alike and the shifts of a derived rule are position by position those of its own children; a needed key found in the rule cache is not recomputed. Does not decide minimality/productivity of the extracted set.',
         note="Trusted: ast. Partial by design.",
     ),
     "C12": dict(
@@ -122,7 +122,7 @@ CLAIMS = {
              "and stores a permutation only when complete; ancestors and the path tracker are released on every exit; base cases "
              "(arity, leaves = two atoms that agree, constructors before recursion) and the one-sided equivalence steps are wired "
              "alike on both sides (every domain-only step moves the forward image on and is reachable while the codomain's rule is "
-             "already a leaf); what the matcher remembers is keyed by pairs of nodes; the JSON maps keep the orientation; the derived rules' maps use the same slot both ways. Does NOT "
+             "already a leaf); what the matcher remembers is keyed by pairs of nodes and released on every way out of a step; no object map of the derived rule forms is bypassed by a copy of the base delegate; the inverse permutation is a closed form known to be the inverse; the JSON maps keep the orientation; the derived rules' maps use the same slot both ways. Does NOT "
              "decide that the image is the right object (needs the strategies' own maps) nor reflexivity / symmetry as such.",
         note="Trusted: ast, side inference (the side of an index is the position of the recursive call's argument it occurs in). "
              "Assumes strategy maps are mutually inverse and constructor.equiv is an equivalence relation.",
@@ -130,13 +130,13 @@ CLAIMS = {
     "C13": dict(
         technique='label-kind abstract interpretation + writer/reader convention agreement by side inference + two-sided acceptance rule',
         design='DESIGN.md sections 3 (engines K, B) and 4 (C13)',
-        text="Decides that the specification-building site of the parallel finder tells the extractor the raw start label of the very class the specification is rooted at; that every label handed to representative-keyed structures is a representative; that a stored strategy is re-applied to the class of its own key; that partial extractors index children through the order map; that the equivalence path starts at a raw label; that the finder's permutation convention agrees with its reader, its backtracking offers every unused position once, and its second search settles a pair only when both sides are assigned; that the matcher follows chains of equivalence rules; that an exhausted queue is a failure only after has_specification() was asked again inside the handler; that the rule paths of two equivalence classes are compared pairwise only at equal length and on every visit of an already placed pair. Necessary for totality; does not decide validity / isomorphism of the outputs.",
+        text="Decides that the specification-building site of the parallel finder tells the extractor the raw start label of the very class the specification is rooted at; that every label handed to representative-keyed structures is a representative; that a stored strategy is re-applied to the class of its own key; that partial extractors index children through the order map; that the equivalence path starts at a raw label; that the finder's permutation convention agrees with its reader, its backtracking offers every unused position once, and its second search settles a pair only when both sides are assigned; that the matcher follows chains of equivalence rules; that an exhausted queue is a failure only after has_specification() was asked again inside the handler; that the rule paths of two equivalence classes are compared pairwise only at equal length and on every visit of an already placed pair. that the bookkeeping stacks of both finders are balanced on every way out of a step; that no call is pinned to the base finder where the Eq-path finder overrides; that store keys are (label, tuple of labels). Necessary for totality; does not decide validity / isomorphism of the outputs.",
         note="Trusted: ast, kind tables (appendix B).",
     ),
     "C14": dict(
         technique="key-shape inference + mapping-protocol completeness + normal-form sibling agreement",
         design="DESIGN.md sections 3 (engines T', T, K8) and 4 (C14)",
-        text='Decides that every store access uses an (int, tuple) key, that both store implementations provide every operation used and agree on the key normal form and on the two-way predicate, that recomputation replays the whole pack, returns a strategy only for the requested key, applies it to the class of its own key, and only calls total ClassDB operations. Does not decide that recomputation returns the same strategy when several apply.',
+        text='Decides that every store access uses an (int, tuple) key, that both store implementations provide every operation used and agree on the key normal form and on the two-way predicate, that recomputation replays the whole pack, returns a strategy only for the requested key, applies it to the class of its own key, and only calls total ClassDB operations. Also: the pack handed to the recomputing stores is not a one-shot iterable. Does not decide that recomputation returns the same strategy when several apply.',
         note="Trusted: ast.",
     ),
     "C15": dict(
@@ -145,7 +145,7 @@ CLAIMS = {
         text="Decides totality of lookups (range / handler discipline), append-only parallel storage with label = "
              "index, exactly-once compression with an inverse decompression pipeline, the sanctioned writers of "
              "the emptiness cache, that a label handed to the emptiness API is turned into its class before it is asked, and that "
-             "membership of the total label/class mappings is decided by get(...) is not None. Each is a literal clause of the property; user-class __eq__/__hash__ are assumed.",
+             "membership of the total label/class mappings is decided by get(...) is not None. Each is a literal clause of the property; user-class __eq__/__hash__ are assumed. Also: a class-or-label argument is brought to one form before it is read.",
         note="Trusted: ast and the guard model (appendix B).",
     ),
     "C16": dict(
@@ -153,31 +153,31 @@ CLAIMS = {
         design='DESIGN.md sections 3 (engine Q) and 4 (C16)',
         text="Decides the guard, pairing and ordering clauses of DefaultQueue (hand-out check after dequeue, monotone "
              "ignore set, once-only flags set after the yield inside the same guard, exhaustion before bookkeeping, "
-             "expansion order, one fresh container per stage, no exit between taking a label from working and carrying it to the next level). Does not decide completeness after draining or termination.",
+             "expansion order, one fresh container per stage, no exit between taking a label from working and carrying it to the next level). Also: no mutable state of the queue lives in the class body. Does not decide completeness after draining or termination.",
         note="Trusted: ast and the control model (appendix B).",
     ),
     "C17": dict(
         technique="state-closure picklability/equality analysis + time-taint reachability over the call graph",
         design='DESIGN.md sections 3 (engine R, K5/K6/K18) and 4 (C17)',
-        text="Decides that no attribute in the searcher's state closure is unpicklable, that every class in the closure compares by value, that time-dependent control can only interrupt between work packets, that an optional time limit is compared with None (0 is a limit), that the queue never takes a label out of a set by position (set order does not survive pickling), that the memory-saving store can read every stored rule back (lazy StrategyDoesNotApply handled per item), that there is no module-level or class-level mutable state, and that specification queries leave the state they read unchanged (cache reset discipline, loss-free one-way table, finders do not modify the dictionary). Does not decide that the continuation visits the same work in the same order.",
+        text="Decides that no attribute in the searcher's state closure is unpicklable, that every class in the closure compares by value, that time-dependent control can only interrupt between work packets, that an optional time limit is compared with None (0 is a limit), that the queue never takes a label out of a set by position (set order does not survive pickling), that the memory-saving store can read every stored rule back (lazy StrategyDoesNotApply handled per item), that no one-shot iterable is kept in an attribute (declared Iterable parameters are materialised, no call site hands a generator to a keeping parameter), that a class defining __hash__ defines __eq__, that classes are marked verified from the dictionary stored as pruned and queries leave no defaultdict entries behind, that there is no module-level or class-level mutable state, and that specification queries leave the state they read unchanged (cache reset discipline, loss-free one-way table, finders do not modify the dictionary). Does not decide that the continuation visits the same work in the same order.",
         note="Trusted: ast, attribute-type table, call graph over resolved callees.",
     ),
     "C18": dict(
         technique="writer/reader key-table agreement per to_jsonable/from_dict pair + equality-purity rule",
         design='DESIGN.md sections 3 (engine J) and 4 (C18)',
-        text="Decides that the key set written equals the key set consumed for every serialisable class, that every constructor setting is written and travels back to the same parameter, that derived forms are rebuilt through their own constructor, that nothing but settings can enter the __dict__ equality compares, that the bijection's nested maps keep their orientation and every pair, (two readers of maps written by one helper agree), that a rule rebuilt by re-applying its strategy passes nothing but the saved class, that a class compared by __dict__ rebuilds list-saved attributes as fixed containers to the saved depth, that the specification writes every rule it holds and makes up an empty rule only for a class without one after is_empty() was asserted. Does not decide behavioural equality of reloaded objects.",
+        text="Decides that the key set written equals the key set consumed for every serialisable class, that every constructor setting is written and travels back to the same parameter, that derived forms are rebuilt through their own constructor, that nothing but settings can enter the __dict__ equality compares, that the bijection's nested maps keep their orientation and every pair, (two readers of maps written by one helper agree), that a rule rebuilt by re-applying its strategy passes nothing but the saved class, that a class compared by __dict__ rebuilds list-saved attributes as fixed containers to the saved depth, that the specification writes every rule it holds and makes up an empty rule only for a class without one after is_empty() was asserted. Also: ids of dumped classes are positions in the array, labels are assigned after the rules have their final form, __hash__ comes with __eq__. Does not decide behavioural equality of reloaded objects.",
         note="Trusted: ast. User classes outside the repository are not covered.",
     ),
     "C19": dict(
         technique='exit-condition and copy-before-share escape analysis of expand_verified / expand_comb_class',
         design='DESIGN.md sections 3 (rules X, E3, A1/A2) and 4 (C19)',
-        text='Decides the exit condition of expand_verified (only the specification just re-examined is returned, the loop never reads the original), that every rule object of the original passes through copy before reaching the new database, that the new search is rooted and seeded from the same root with aligned labels and the expanded class excluded, that verified labels stay in the queue, that every reverse form is inserted, that the attempt without reverse rules falls back to the attempt with them exactly on SpecificationNotFound, and that the inner search records each rule under the label of its own parent (a rule is skipped as trivial only when its own parent is its only child). Does not decide enumeration preservation.',
+        text='Decides the exit condition of expand_verified (only the specification just re-examined is returned, the loop never reads the original), that every rule object of the original passes through copy before reaching the new database, that the new search is rooted and seeded from the same root with aligned labels and the expanded class excluded, that verified labels stay in the queue, that every reverse form is inserted, that the attempt without reverse rules falls back to the attempt with them exactly on SpecificationNotFound, and that the inner search records each rule under the label of its own parent (a rule is skipped as trivial only when its own parent is its only child). Also: a class-or-label argument is brought to a class before it is used, the default pack refusal is the exception that is skipped, a cached rule is not recomputed. Does not decide enumeration preservation.',
         note="Trusted: ast.",
     ),
     "C20": dict(
         technique='variable-namespace kind inference on substitution tables + fallback discipline + symbolic evaluation of get_equation over Laurent polynomials',
         design='DESIGN.md sections 3 (engines V, S/V9) and 4 (C20)',
-        text="Decides that every substitution table is {child var: product of the parent vars mapped onto it} built from that child's own table and paired with that child's function, that unsupported constructors refuse with NotImplementedError and the only fallback is the original rule's equation, and - by abstract interpretation over Laurent polynomials in opaque function symbols - that the four constructors' equations for classes without statistics have the forms f0+f1+..., f0-f1-..., f0*f1*..., f0/(f1*...) for every arity up to K and flipped index. Does not decide equations with statistics nor genf selection.",
+        text="Decides that every substitution table is {child var: product of the parent vars mapped onto it} built from that child's own table and paired with that child's function, that unsupported constructors refuse with NotImplementedError and the only fallback is the original rule's equation, and - by abstract interpretation over Laurent polynomials in opaque function symbols - that the four constructors' equations for classes without statistics have the forms f0+f1+..., f0-f1-..., f0*f1*..., f0/(f1*...) for every arity up to K and flipped index. Also: child_idx of an equivalence rule is the position of the kept child in the original rule; overridden static parameter maps are bound by name. Does not decide equations with statistics nor genf selection.",
         note="Trusted: ast. Partial by design.",
     ),
 }
